@@ -73,6 +73,64 @@ pub struct LspTrace {
     pub hash_seeds: Vec<u64>,
     pub dir_seed: u64,
     pub mode: String,
+    /// which legal shape the initialize request of the history's server takes (0 = the plain one)
+    #[serde(default)]
+    pub init_shape: u8,
+}
+
+pub const INIT_SHAPES: u8 = 10;
+
+pub fn init_shape_name(shape: u8) -> &'static str {
+    match shape {
+        1 => "folders_empty_list",
+        2 => "root_uri_only",
+        3 => "two_folders",
+        4 => "folder_missing_on_disk",
+        5 => "folder_is_a_file",
+        6 => "folder_not_a_file_uri",
+        7 => "folder_trailing_slash",
+        8 => "rich_client_params",
+        9 => "folder_percent_encoded",
+        _ => "plain",
+    }
+}
+
+/// The params of the initialize request for a shape. `ws` is the URI of the workspace folder the
+/// client announces (None: the client has no folder; shapes that need one fall back to the plain form).
+pub fn initialize_params(ws: Option<&str>, shape: u8) -> Value {
+    let plain = |folders: Value| json!({"processId": null, "rootUri": null, "capabilities": {}, "workspaceFolders": folders});
+    let one = |uri: &str| json!([{"uri": uri, "name": "ws"}]);
+    let root_dir = format!("file://{}", root().display());
+    match (shape, ws) {
+        (1, None) => plain(json!([])),
+        (2, None) => json!({"processId": 4711, "rootUri": format!("{root_dir}/ws"), "rootPath": format!("{}/ws", root().display()), "capabilities": {}}),
+        (3, None) => plain(json!([{"uri": format!("{root_dir}/ws"), "name": "ws"}, {"uri": format!("{root_dir}/ws2"), "name": "second"}])),
+        (4, None) => plain(one(&format!("{root_dir}/nowhere"))),
+        (5, None) => plain(one(&format!("{root_dir}/ws/a.st"))),
+        (6, None) => plain(one("untitled:ws")),
+        (7, Some(uri)) => plain(one(&format!("{uri}/"))),
+        (8, ws) => json!({
+            "processId": 4711,
+            "clientInfo": {"name": "simplc editor", "version": "1.0"},
+            "locale": "en",
+            "rootPath": ws.map(|_| format!("{}/ws", root().display())),
+            "rootUri": ws,
+            "trace": "off",
+            "capabilities": {
+                "workspace": {"workspaceFolders": true, "configuration": true},
+                "textDocument": {
+                    "synchronization": {"dynamicRegistration": false, "didSave": true},
+                    "publishDiagnostics": {"relatedInformation": true, "versionSupport": true},
+                    "semanticTokens": {"requests": {"full": {"delta": true}, "range": true}, "tokenTypes": ["keyword", "variable"], "tokenModifiers": [], "formats": ["relative"]}
+                },
+                "general": {"positionEncodings": ["utf-16"]}
+            },
+            "workspaceFolders": match ws { Some(uri) => one(uri), None => Value::Null },
+        }),
+        (9, Some(uri)) => plain(one(&uri.replace("/ws", "/%77s"))),
+        (_, Some(uri)) => plain(one(uri)),
+        (_, None) => plain(Value::Null),
+    }
 }
 
 /// Expands a symbolic URI ("ws:a.st") to the real one.
@@ -206,6 +264,11 @@ pub struct Session {
 impl Session {
     /// Starts a server thread and performs the initialize handshake.
     pub fn start(hash_seed: u64, hooks: Arc<SimHooks>, ws_folder: Option<String>) -> Session {
+        Self::start_shaped(hash_seed, hooks, ws_folder, 0)
+    }
+
+    /// As `start`, with the initialize request in one of the legal shapes of `initialize_params`.
+    pub fn start_shaped(hash_seed: u64, hooks: Arc<SimHooks>, ws_folder: Option<String>, init_shape: u8) -> Session {
         let (c2s_tx, c2s_rx) = bounded::<Message>(0);
         let (s2c_tx, s2c_rx) = bounded::<Message>(0);
         let handle = std::thread::Builder::new()
@@ -232,18 +295,10 @@ impl Session {
             inc: Incarnation { hash_seed, steps: vec![], died: None, died_at_step: None, result: None, crashed_by_simulator: false, still_receiving_after_exit: false },
             dead: false,
         };
-        let folders = match ws_folder {
-            Some(uri) => json!([{"uri": uri, "name": "ws"}]),
-            None => Value::Null,
-        };
         s.deliver(
             None,
             "initialize",
-            Message::Request(Request {
-                id: RequestId::from(1),
-                method: "initialize".into(),
-                params: json!({"processId": null, "rootUri": null, "capabilities": {}, "workspaceFolders": folders}),
-            }),
+            Message::Request(Request { id: RequestId::from(1), method: "initialize".into(), params: initialize_params(ws_folder.as_deref(), init_shape) }),
         );
         s.deliver(None, "initialized", Message::Notification(Notification { method: "initialized".into(), params: json!({}) }));
         s
